@@ -129,6 +129,25 @@ fn float_ctor(acc: &mut Acc, idx: u64, len: usize, w: usize, h: usize) {
             (if ok && a == c { a } else { vec![0xBAD] }, gw, gh)
         }};
     }
+    // the buffer is its LENGTH: the same data in vectors whose capacity differs from their length
+    // (grown by push, or reserved for a full w*h image and left short) must get the same verdicts
+    let over = || {
+        let mut v = Vec::with_capacity(len + 5);
+        v.extend_from_slice(&data);
+        v
+    };
+    let reserved = || {
+        let mut v = Vec::with_capacity((w * h).max(len));
+        v.extend_from_slice(&data);
+        v
+    };
+    for (which, mk) in [("capacity len+5", &over as &dyn Fn() -> Vec<[f32; 3]>), ("capacity max(w*h, len)", &reserved)] {
+        let _ = which;
+        report(acc, "LinearRgb", guarded(|| LinearRgb::new(mk(), w, h).map(|i| all_views!(i))));
+        report(acc, "Xyb", guarded(|| Xyb::new(mk(), w, h).map(|i| all_views!(i))));
+        report(acc, "Hsl", guarded(|| Hsl::new(mk(), w, h).map(|i| all_views!(i))));
+        report(acc, "Rgb", guarded(|| Rgb::new(mk(), w, h, TC::BT470M, CP::Film).map(|i| if i.transfer() == TC::BT470M && i.primaries() == CP::Film { all_views!(i) } else { (vec![0xBAD], 0, 0) })));
+    }
     report(acc, "LinearRgb", guarded(|| LinearRgb::new(data.clone(), w, h).map(|i| all_views!(i))));
     report(acc, "Xyb", guarded(|| Xyb::new(data.clone(), w, h).map(|i| all_views!(i))));
     report(acc, "Hsl", guarded(|| Hsl::new(data.clone(), w, h).map(|i| all_views!(i))));
@@ -275,7 +294,7 @@ pub fn run(tier: Tier) -> Report {
         rep.acc.merge(acc);
     }
     rep.bound = format!(
-        "(1) full product of luma w,h in 1..={} x common chroma size 0..=w+1 x 0..=h+1 x chroma decimation 0..=2^2 x config subsampling 0..=2^2 x u8/u16 x padding {{0,1,17}} = {} frames; (2) every well-formed base with luma sizes in {:?}, valid subsampling, (u8,8)/(u16,10)/(u16,16), padding {{0,1,17}} ({} bases) with every single deviation and (sizes <= 12) every pair of deviations (chroma size, decimation, config subsampling, luma size, per-plane padding, from_slice construction, one out-of-range sample); (3) one out-of-range sample (2^n, 2^n+1, 65535) at EVERY raw buffer position (visible and padding) of every plane for {} geometries x depths 8..15; (4) all (len,w,h) in 0..=40 cubed for the four float constructors, all 19x14 label pairs for Rgb::new and all 15x19x14 metadata triples for Yuv::new (u8/8 bit, u16/10 bit): specified metadata is exposed as given",
+        "(1) full product of luma w,h in 1..={} x common chroma size 0..=w+1 x 0..=h+1 x chroma decimation 0..=2^2 x config subsampling 0..=2^2 x u8/u16 x padding {{0,1,17}} = {} frames; (2) every well-formed base with luma sizes in {:?}, valid subsampling, (u8,8)/(u16,10)/(u16,16), padding {{0,1,17}} ({} bases) with every single deviation and (sizes <= 12) every pair of deviations (chroma size, decimation, config subsampling, luma size, per-plane padding, from_slice construction, one out-of-range sample); (3) one out-of-range sample (2^n, 2^n+1, 65535) at EVERY raw buffer position (visible and padding) of every plane for {} geometries x depths 8..15; (4) all (len,w,h) in 0..=40 cubed for the four float constructors (each with an exact-capacity, an over-allocated and a w*h-reserved buffer), all 19x14 label pairs for Rgb::new and all 15x19x14 metadata triples for Yuv::new (u8/8 bit, u16/10 bit): specified metadata is exposed as given",
         tier.pick(5, 7), sb.len(), dev_sizes(tier == Tier::Thorough), bs.len(), sweeps.len()
     );
     rep.rule = "Yuv::new verdict vs the reference predicate transcribed from the statement (accept <=> predicate; on reject the variant must name a violated condition; padding samples never matter; accepted images are verbatim); float constructors: Ok <=> len == w*h else ResolutionMismatch, data verbatim".into();
